@@ -35,7 +35,7 @@ func init() {
 			"top-level declarations are excluded: go/printer forces blank lines between declarations of different kinds regardless of positions",
 			"struct fields and parenthesised specs: gofmt strips blank lines directly after '{'/'(' and before '}'/')', so only between-element blank lines are asserted there",
 		},
-		Required: map[string]int{"list_kinds": 8, "patterns": 8},
+		Required: map[string]int{"list_kinds": 8, "patterns": 9},
 	})
 }
 
@@ -184,7 +184,9 @@ var c05Kinds = []c05Kind{
 		}},
 }
 
-var c05Patterns = []string{"none", "end-line-comment", "start-line-comment", "end-newline", "end-two-newlines", "end+start-line-comments", "open-newline", "open-line-comment"}
+const c05Block = "/*E\nE2*/"
+
+var c05Patterns = []string{"none", "end-line-comment", "start-line-comment", "end-newline", "end-two-newlines", "end+start-line-comments", "open-newline", "open-line-comment", "end-multiline-block"}
 
 func init() {
 	valueOf := func(f *dst.File, decl int) dst.Expr {
@@ -251,6 +253,7 @@ func c05Case(c *fw.Ctx, kind c05Kind, n int, pattern string, sp []dst.SpaceType,
 	extraBreaksAfterTarget := 0
 	startComment := false
 	endComment := false
+	endBlock := false
 	openPattern := strings.HasPrefix(pattern, "open-")
 	if openPattern {
 		od := kind.openDecs(f)
@@ -277,6 +280,11 @@ func c05Case(c *fw.Ctx, kind c05Kind, n int, pattern string, sp []dst.SpaceType,
 		case "end-two-newlines":
 			td.End = dst.Decorations{"\n", "\n"}
 			extraBreaksAfterTarget = 2
+		case "end-multiline-block":
+			// a block comment that spans two lines: it contributes no line break of its own, and
+			// the lines it occupies must be accounted for when the following spacing is rendered
+			td.End = dst.Decorations{c05Block}
+			endBlock = true
 		}
 		if pattern == "start-line-comment" || pattern == "end+start-line-comments" {
 			if target+1 < len(els) {
@@ -324,6 +332,9 @@ func c05Case(c *fw.Ctx, kind c05Kind, n int, pattern string, sp []dst.SpaceType,
 		}
 		if t.Tok == token.COMMENT {
 			line[strings.TrimSpace(t.Lit)] = t.Line
+			if strings.HasPrefix(t.Lit, "/*E") {
+				line[c05Block] = t.Line // go/printer re-indents the second line of the comment
+			}
 		}
 		_ = i
 	}
@@ -373,6 +384,12 @@ func c05Case(c *fw.Ctx, kind c05Kind, n int, pattern string, sp []dst.SpaceType,
 	for i := 0; i+1 < n; i++ {
 		a, b := fmt.Sprintf("elem%d", i+1), fmt.Sprintf("elem%d", i+2)
 		la, lb := line[a], line[b]
+		if i == target && endBlock {
+			if line[c05Block] != la {
+				fail("end-comment-placement", fmt.Sprintf("End block comment starts on line %d, its element is on line %d (want the same line)", line[c05Block], la))
+			}
+			la = line[c05Block] + strings.Count(c05Block, "\n") // the line on which the comment ends
+		}
 		spacing := int(comb(i)) // 0, 1, 2 line breaks asked for by Before/After
 		hasE := i == target && endComment
 		hasS := i == target && startComment
@@ -443,6 +460,9 @@ func c05Case(c *fw.Ctx, kind c05Kind, n int, pattern string, sp []dst.SpaceType,
 	}
 	if openLine > 0 && closeLine > 0 {
 		first, last := line["elem1"], line[lastName]
+		if endBlock && target == n-1 {
+			last = line[c05Block] + strings.Count(c05Block, "\n")
+		}
 		keepOpen, keepClose := c05EdgeCalibration(kind)
 		// opening edge: only when the first element occupies its own line
 		if openPattern && first <= openLine {
@@ -465,7 +485,7 @@ func c05Case(c *fw.Ctx, kind c05Kind, n int, pattern string, sp []dst.SpaceType,
 			fail("missing-line-break", fmt.Sprintf("first element has Before=%s but stays on the opening line", sp[0]))
 		}
 		// closing edge (not when a comment pattern sits on the last element)
-		if !(target == n-1 && pattern != "none") && closeLine > last && keepClose {
+		if !(target == n-1 && pattern != "none" && !endBlock) && closeLine > last && keepClose {
 			want := 0
 			if sp[2*(n-1)+1] == dst.EmptyLine {
 				want = 1
@@ -552,6 +572,14 @@ func runC05(c *fw.Ctx) {
 				if pattern == "none" {
 					targets = []int{0}
 				}
+				if pattern == "end-multiline-block" {
+					if kind.exprList {
+						continue // elements of expression lists do not occupy their own lines
+					}
+					if n >= 2 {
+						targets = append(targets, n-1)
+					}
+				}
 				for _, target := range targets {
 					if strings.Contains(pattern, "start") && target+1 >= n {
 						continue
@@ -611,6 +639,9 @@ func runC05(c *fw.Ctx) {
 					sp[j] = spaces[r.Intn(3)]
 				}
 				pattern := c05Patterns[r.Intn(len(c05Patterns))]
+				if kind.exprList && pattern == "end-multiline-block" {
+					pattern = "none"
+				}
 				target := r.Intn(n - 1)
 				c05Case(c, kind, n, pattern, sp, target)
 				c.Count("random_long_lists", 1)
